@@ -3,8 +3,8 @@ import re
 import hashlib
 from rs2v_parse import RsError, fail, SourceFile, Parser
 
-INT_TYPES = {'u8': (False, 8), 'u16': (False, 16), 'u32': (False, 32), 'u64': (False, 64), 'usize': (False, 64),
-             'i8': (True, 8), 'i16': (True, 16), 'i32': (True, 32), 'i64': (True, 64), 'isize': (True, 64)}
+INT_TYPES = {'u8': (False, 8), 'u16': (False, 16), 'u32': (False, 32), 'u64': (False, 64), 'usize': (False, 64), 'u128': (False, 128),
+             'i8': (True, 8), 'i16': (True, 16), 'i32': (True, 32), 'i64': (True, 64), 'isize': (True, 64), 'i128': (True, 128)}
 COQ_RESERVED = set('''as at cofix else end exists exists2 fix for forall fun if IF in let match mod return then using where with
  Prop Set Type Definition Lemma Theorem Proof Qed nth true false negb andb orb xorb implb fst snd tt unit bool Z nat list
  S O I xH xO xI Z0 Zpos Zneg nil cons pair Some None Lt Gt Eq inl inr left right conj eq_refl
@@ -128,6 +128,8 @@ class Program:
             for it in sf.active(name):
                 if it.kind in kinds:
                     hits.append((sf, it))
+        if not hits and 'fn' in kinds and not optional and '::' not in name and self.load_file_defining(name):
+            return self.find(name, kinds, line, fname, optional)
         if not hits:
             if optional:
                 return None
@@ -136,6 +138,25 @@ class Program:
             fail('name `%s` is defined %d times (%s); the translator does not do module resolution' %
                  (name, len(hits), ', '.join('%s:%d' % (s.path, i.line) for s, i in hits)), line, fname)
         return hits[0]
+
+    def load_file_defining(self, name):
+        """a called function that is not defined in the files loaded so far: load the other source files of the directory
+        whose text contains `fn <name>` (calls into other files, e.g. bid128_modf -> bid128_round_integral_zero)"""
+        import os
+        import re
+        loaded = set(os.path.abspath(sf.path) for sf in self.files)
+        added = False
+        for f in sorted(os.listdir(self.srcdir)):
+            p = os.path.abspath(os.path.join(self.srcdir, f))
+            if not f.endswith('.rs') or p in loaded:
+                continue
+            with open(p, encoding='utf-8') as fh:
+                text = fh.read()
+            if re.search(r'\bfn\s+%s\b' % re.escape(name), text):
+                self.files.append(SourceFile(os.path.join(self.srcdir, f)))
+                self.header.append('loaded %s for fn %s' % (f, name))
+                added = True
+        return added
 
     def find_trait_fn(self, tyname_, fname_, line, fname):
         """T::f where f comes from exactly one `impl Trait for T` among the loaded files"""
@@ -811,6 +832,11 @@ class FnTr:
             a = self.coerce_lit(a, b.ty, line)
         if b.ty == 'lit' and a.ty != 'lit':
             b = self.coerce_lit(b, a.ty, line)
+        if a.ty == 'lit' and b.ty == 'lit' and op in ('+', '-', '*') and a.lit is not None and b.lit is not None:
+            # two literals of undetermined type: the constant is folded (rustc evaluates it at compile time and rejects an
+            # overflow at the type finally chosen, so the mathematical value is the value; coerce_lit checks the fit)
+            val = a.lit + b.lit if op == '+' else (a.lit - b.lit if op == '-' else a.lit * b.lit)
+            return Val('lit', [], a.checks + b.checks, lit=val)
         if a.ty == 'lit' and b.ty == 'lit':
             self.fail('binary operation on two integer literals of undetermined type', line)
         if a.ty != b.ty:
@@ -872,6 +898,40 @@ class FnTr:
         if a.checks or b.checks:
             checks.append('(if %s then %s else %s)' % (c.leaves[0], ' && '.join(a.checks) or 'true', ' && '.join(b.checks) or 'true'))
         return Val(a.ty, ['(if %s then %s else %s)' % (c.leaves[0], a.leaves[0], b.leaves[0])], checks)
+
+    def covers_enum(self, arms, line):
+        """do the unguarded arms name every variant of one field-less enum (then an unguarded last arm is reached only by
+        values it matches: it can be the `else` of the chain; values outside the declared variants do not exist)"""
+        enum_name, seen = None, set()
+        def variants(pat):
+            if pat[0] == 'por':
+                res = []
+                for q in pat[1]:
+                    r = variants(q)
+                    if r is None:
+                        return None
+                    res += r
+                return res
+            if pat[0] == 'ppath' and len(pat[1]) == 2:
+                try:
+                    t0, _ = self.prog.resolve_type(('name', pat[1][0], [pat[1][0]]), self.self_type, line, self.fname)
+                except RsError:
+                    return None
+                if isinstance(t0, tuple) and t0[0] == 'enum' and pat[1][1] in self.prog.enums[t0[1]]:
+                    return [(t0[1], pat[1][1])]
+            return None
+        for pat, guard, body, aline in arms:
+            vs = variants(pat)
+            if vs is None:
+                return False
+            for en, vn in vs:
+                if enum_name is None:
+                    enum_name = en
+                if en != enum_name:
+                    return False
+                if guard is None:
+                    seen.add(vn)
+        return enum_name is not None and seen == set(self.prog.enums[enum_name])
 
     def tr_match_expr(self, e, env, expect):
         """match as a value: scrutinee evaluated once (let-bound in the emitted term), arms tried in order, each arm
@@ -944,6 +1004,8 @@ class FnTr:
             elif bv.ty != result_ty:
                 self.fail('match arms of different types %s / %s' % (tyname(result_ty), tyname(bv.ty)), aline)
             last = idx == len(arms) - 1
+            if last and test is not None and guard is None and self.covers_enum(arms, line):
+                test = None                      # all variants of the enum are named: the last arm is the else
             if last and test is not None:
                 self.fail('the last match arm must be irrefutable (`_` or a binding without guard): exhaustiveness is not analysed', aline)
             if not last and test is None:
@@ -1027,6 +1089,8 @@ class FnTr:
             if guard is not None:
                 t = guard if t is None else ('bin', '&&', t, guard, aline)
             if idx == len(arms) - 1:
+                if t is not None and guard is None and self.covers_enum(arms, line):
+                    t = None                     # all variants of the enum are named: the last arm is the else
                 if t is not None:
                     self.fail('the last match arm must be irrefutable (`_`): exhaustiveness is not analysed', aline)
                 node = blk
@@ -1127,7 +1191,24 @@ class FnTr:
         if len(segs) == 1 and segs[0] in self.prog.abstract_names:
             info = abstract_fn(self.prog, hit[0], hit[1])
         else:
-            info = translate_fn(self.prog, hit[0], hit[1], selfty)
+            sig = Parser(hit[0], hit[1].start, hit[1].end).parse_fn(sig_only=True)
+            targs = None
+            if len(sig) > 6:
+                # generic function: each type parameter is inferred from the first argument whose parameter type is `T`,
+                # `&T` or `&mut T`; the ordinary argument type check below validates the rest
+                if len(args) != len(sig[2]):
+                    self.fail('call of %s with %d arguments, %d expected' % (segs[-1], len(args), len(sig[2])), line)
+                found = {}
+                for (pn, pmut, ptast, pline), a in zip(sig[2], args):
+                    core = ptast[2] if ptast[0] == 'ref' else ptast
+                    if core[0] == 'name' and core[2] == [core[1]] and core[1] in sig[6] and core[1] not in found:
+                        aval = a[2] if (a[0] == 'un' and a[1] in ('&mut', '&')) else a
+                        av = self.default_lit(self.tr_scalar(aval, env, None), line)
+                        found[core[1]] = av.ty
+                if set(found) != set(sig[6]):
+                    self.fail('cannot infer the type arguments of generic function %s' % segs[-1], line)
+                targs = tuple((g, found[g]) for g in sig[6])
+            info = translate_fn(self.prog, hit[0], hit[1], selfty, targs)
         if len(args) != len(info.params):
             self.fail('call of %s with %d arguments, %d expected' % (info.rust, len(args), len(info.params)), line)
         argvals = []
@@ -1224,12 +1305,42 @@ class FnTr:
                     add(pl)
         return res
 
+    def rename_pattern(self, pat, old, new):
+        if pat[0] == 'pvar':
+            return ('pvar', new, pat[2], pat[3]) if pat[1] == old else pat
+        return (pat[0], [self.rename_pattern(p, old, new) for p in pat[1]]) + tuple(pat[2:])
+
+    def rebinds(self, node, name):
+        """does the AST contain a `let` that binds `name` (a second shadowing inside the renamed region)?"""
+        if isinstance(node, tuple):
+            if node and node[0] == 'let' and len(node) == 5 and name in self.pattern_names(node[1]):
+                return True
+            return any(self.rebinds(x, name) for x in node)
+        if isinstance(node, list):
+            return any(self.rebinds(x, name) for x in node)
+        return False
+
     def check_no_shadow(self, block, env, depth_line):
-        for st in block[1]:
-            if st[0] == 'let':
-                for n in self.pattern_names(st[1]):
-                    if n in env.vars:
-                        self.fail('`let %s` in a nested block shadows a variable of an enclosing scope' % n, st[4])
+        """a `let n` in a nested block that shadows a variable of an enclosing scope: the inner variable is renamed
+        (n_s<line>) in the rest of that block, so that the outer one is visible again after the block. Returns the block."""
+        stmts, tail = list(block[1]), block[2]
+        for i, st in enumerate(stmts):
+            if st[0] != 'let':
+                continue
+            for n in self.pattern_names(st[1]):
+                if n in env.vars:
+                    fresh = '%s_s%d' % (n, st[4])
+                    if fresh in env.vars:
+                        self.fail('`let %s` shadows a variable of an enclosing scope twice on one line' % n, st[4])
+                    restl = stmts[i + 1:]
+                    if self.rebinds(restl, n) or self.rebinds(tail, n):
+                        self.fail('`let %s` in a nested block shadows a variable of an enclosing scope and is shadowed again' % n, st[4])
+                    ren = ('path', [fresh], st[4])
+                    stmts[i] = ('let', self.rename_pattern(st[1], n, fresh), st[2], st[3], st[4])
+                    st = stmts[i]
+                    stmts[i + 1:] = [self.subst_var(x, n, ren) for x in restl]
+                    tail = self.subst_var(tail, n, ren) if tail is not None else None
+        return ('block', stmts, tail, block[3])
 
     def pattern_names(self, pat):
         if pat[0] == 'pvar':
@@ -1243,8 +1354,52 @@ class FnTr:
         """statements of a block, then k(env, tail Val or None). Variables declared inside stay in env (harmless: Rust
         rejects later uses); shadowing of outer names inside nested blocks is refused."""
         if nested:
-            self.check_no_shadow(block, env, block[3])
+            block = self.check_no_shadow(block, env, block[3])
         return self.tr_stmts(block[1], 0, block[2], env, k)
+
+    def call_is_multi(self, node):
+        """is the node a call of a (plain, resolvable) function with `&mut` parameters or a struct / tuple result? Decided from
+        the signature only (nothing is translated)."""
+        while node[0] == 'paren':
+            node = node[1]
+        if node[0] == 'block' and not node[1] and node[2] is not None:
+            return self.call_is_multi(node[2])
+        if node[0] != 'call' or node[1][0] != 'path' or len(node[1][1]) != 1:
+            return False
+        name = node[1][1][0]
+        if name in self.prog.abstract_names:
+            return True
+        hit = None
+        for sf in self.prog.files:
+            for it in sf.active(name):
+                if it.kind == 'fn':
+                    hit = (sf, it)
+        if hit is None:
+            if not self.prog.load_file_defining(name):
+                return False
+            return self.call_is_multi(node)
+        f = Parser(hit[0], hit[1].start, hit[1].end).parse_fn(sig_only=True)
+        for pn, mut, ty, pl in f[2]:
+            if ty[0] == 'ref' and ty[1]:
+                return True
+        if f[3] is None:
+            return False
+        rt, _ = self.prog.resolve_type(f[3], None, f[5], hit[0].path)
+        return isinstance(rt, tuple) and rt[0] in ('struct', 'tuple') and len(self.prog.leaves_of(rt)) > 1
+
+    def has_multi_call_leaf(self, node):
+        """an if / match / block structure one of whose branch values is such a call"""
+        if node is None:
+            return False
+        if node[0] == 'paren':
+            return self.has_multi_call_leaf(node[1])
+        if node[0] == 'block':
+            return self.has_multi_call_leaf(node[2])
+        if node[0] == 'if':
+            return self.has_multi_call_leaf(node[2]) or self.has_multi_call_leaf(node[3])
+        if node[0] == 'match':
+            return any(self.has_multi_call_leaf(a[2]) for a in node[2])
+        return self.call_is_multi(node)
 
     def if_value_needs_split(self, node, multi):
         """an `if` used as the value of a let / assignment cannot be translated as an expression when a branch contains
@@ -1259,7 +1414,7 @@ class FnTr:
             return any(self.if_value_needs_split(b, multi) for b in (node[2], node[3]) if b is not None)
         if node[0] == 'match':
             return any(self.if_value_needs_split(a[2], multi) for a in node[2])
-        return multi and node[0] == 'call'
+        return multi          # a value with several leaves cannot be selected by an `if` expression: always split
 
     def push_assign(self, node, lhs, line):
         """`lhs = <node>` with the assignment moved to the leaves of the if / block / match structure of node"""
@@ -1293,11 +1448,13 @@ class FnTr:
         if i == len(stmts):
             if tail is None:
                 return k(env, None)
-            if tail[0] == 'match' and any(a[2][0] == 'block' and a[2][1] for a in tail[2]):
+            if tail[0] == 'match' and (any(a[2][0] == 'block' and a[2][1] for a in tail[2]) or self.if_value_needs_split(tail, False)
+                                      or self.has_multi_call_leaf(tail)):
                 tail = self.desugar_match(tail)
             if tail[0] == 'if' and self.is_stmt_if(tail):
                 return self.tr_if_stmt(tail, env, lambda env2: k(env2, None))
-            if tail[0] == 'if' and (tail[2][1] or (tail[3] is not None and tail[3][1]) or self.contains_return(tail)):
+            if tail[0] == 'if' and (tail[2][1] or (tail[3] is not None and tail[3][1]) or self.contains_return(tail)
+                                   or self.if_value_needs_split(tail, False) or self.has_multi_call_leaf(tail)):
                 # value-producing if whose branches contain statements: translate the branches as blocks
                 return self.tr_if_value_cps(tail, env, k)
             if tail[0] == 'block':
@@ -1386,7 +1543,7 @@ class FnTr:
         fuel = self.prog.fuel.get((self.info.rust, n))
         if fuel is None:
             self.fail('no fuel bound is given for loop #%d of fn %s (rs2v.FUEL / --fuel %s:%d=N)' % (n, self.info.rust, self.info.rust, n), line)
-        self.check_no_shadow(body, env, line)
+        body = self.check_no_shadow(body, env, line)
         mod = self.modified_leaves([body], env)
         state = [(vn, i) for (vn, i) in mod if env.vars[vn].init[i]]
         for (vn, i) in mod:
@@ -1410,6 +1567,10 @@ class FnTr:
             return gname(vn, env.vars[vn].leaves[i][0])
         def gt(vn, i):
             return 'bool' if env.vars[vn].leaves[i][1] == 'bool' else 'Z'
+        # canonical order (by generated name) of the state tuple and of the captured variables: reordering statements or
+        # declarations in the source does not change the signature of the generated Fixpoint
+        state.sort(key=lambda x: gn(*x))
+        captured.sort(key=lambda x: gn(*x))
         snames = [gn(vn, i) for vn, i in state]
         stuple = snames[0] if len(snames) == 1 else '(' + ', '.join(snames) + ')'
         stype = ' * '.join(gt(vn, i) for vn, i in state)
@@ -1744,8 +1905,8 @@ class FnTr:
             b = self.tr_block(els, env.copy(), kk if fb else dead)
             return self.guard(c.checks, ('if', c.leaves[0], a, b))
         # no return inside: merge the modified storage
-        self.check_no_shadow(then, env, line)
-        self.check_no_shadow(els, env, line)
+        then = self.check_no_shadow(then, env, line)
+        els = self.check_no_shadow(els, env, line)
         mod = self.modified_leaves([then, els], env)
         # definite initialisation after the if
         ea, eb = env.copy(), env.copy()
@@ -1798,8 +1959,8 @@ class FnTr:
     def tr_if_join(self, c, then, els, env, rest, line):
         """both branches may fall through and at least one contains a return: bind the continuation as a local function
         of the storage the branches modify"""
-        self.check_no_shadow(then, env, line)
-        self.check_no_shadow(els, env, line)
+        then = self.check_no_shadow(then, env, line)
+        els = self.check_no_shadow(els, env, line)
         mod = self.modified_leaves([then, els], env)
         self.kcount += 1
         kn = 'k_%d' % self.kcount
@@ -1891,18 +2052,25 @@ def abstract_fn(prog, sf, item):
     return info
 
 
-def translate_fn(prog, sf, item, self_type):
-    """translate one function (and, first, everything it calls); returns its FnInfo"""
-    key = (sf.path, item.name)
+def translate_fn(prog, sf, item, self_type, targs=None):
+    """translate one function (and, first, everything it calls); returns its FnInfo. targs: the type arguments of a generic
+    function, as a tuple of (parameter name, type) - one translation (and one Gallina name) per instantiation"""
+    key = (sf.path, item.name) if not targs else (sf.path, item.name, targs)
     if key in prog.fn_done:
         return prog.fn_done[key]
     if key in prog.fn_stack:
         fail('recursive function %s' % item.name, item.line, sf.path)
     prog.fn_stack.append(key)
     f = Parser(sf, item.start, item.end).parse_fn()
+    if len(f) > 6 and not targs:
+        fail('generic function %s without inferred type arguments' % item.name, item.line, sf.path)
+    saved_types = {}
+    for gn, gty in (targs or ()):
+        saved_types[gn] = prog.type_cache.get(gn)
+        prog.type_cache[gn] = gty
     info = FnInfo()
     info.rust = item.name
-    info.gname = 'i_' + item.name.replace('::', '_')
+    info.gname = 'i_' + item.name.replace('::', '_') + ''.join('_' + re.sub(r'\W', '_', tyname(t)) for _, t in (targs or ()))
     if info.gname in prog.used_gnames:
         fail('two translated functions map to the Gallina name %s' % info.gname, item.line, sf.path)
     texts = {}
@@ -1949,4 +2117,9 @@ def translate_fn(prog, sf, item, self_type):
     prog.used_gnames.add(info.gname)
     prog.fn_stack.pop()
     prog.fn_done[key] = info
+    for gn, old_ty in saved_types.items():
+        if old_ty is None:
+            prog.type_cache.pop(gn, None)
+        else:
+            prog.type_cache[gn] = old_ty
     return info
